@@ -6,6 +6,11 @@ props = [json.loads(l) for l in open(os.path.join(V, "properties.jsonl"))]
 ids = [p["id"] for p in props]
 
 CLAIMS = {
+ "C16": dict(
+   technique="Lean 4 proof over an executable byte-level model of the tracker core (transform, merge, catalog, fill, line projection, line↔char conversion) with the diff and move detector as contract-checked parameters; in-process differential correspondence against the real code through verif-hooks; property oracles on the real outputs",
+   text="Proof of no_panic, in_bounds, on_boundaries, unchanged_keeps_author (multiset before merge, set after), new_text_is_reporters, line_char_roundtrip and identity (exact normal-form characterisation) for all inputs under the stated segment/move contracts; identity_keeps_lines and whitespace_reformat_keeps_lines are partial, with negation witnesses. The model reproduces update_attributions exactly on the real segments and moves of every generated case (text pairs: empty, one line, no final newline, CRLF, multibyte/combining, long lines, repeated lines, moved blocks; malformed prior attribution sets).",
+   note="The diff (imara-diff, tokenizer, compute_diffs) and the move detector are not proved; their contracts are checked on every generated case and panics inside them are reachable only by the harness. Three identity findings are listed (zero-length priors, timestamp ties, overrode order). The line-level whitespace statement and the overlapping round trip are oracle-checked only. Fixed in /repo: moved attributions mapped by raw byte offset (8fec1a64), usize underflow on inverted prior range (71ab5134).",
+   ref="DESIGN.md §8 C16"),
  "C09": dict(
    technique="Lean 4 proof over executable models of the blame porcelain parser, git path un-quoting, note lookup, overlay, hunk splitting and output formats; in-process correspondence of the real parser/un-quoter with the model on generated adversarial porcelain; end-to-end differential check of git-ai blame (default, --show-prompt, --json, --porcelain, --line-porcelain, --incremental, library API with -w/revision/ignore-rev/-L) against an independent Python recomputation from plain git blame --line-porcelain + raw notes and against the Lean overlay",
    text="Proof (Lean, all sizes) that the parser inverts git's line-porcelain grammar for arbitrary field contents and paths, that the overlay labels a line AI by S exactly when the originating commit's note credits the original line under the original path (rename-invariant), and that all formats carry the same line→commit/author content; tied to the code by in-process correspondence with zero disagreements and by an end-to-end recomputation on generated histories (renames, copies, merges, several sessions, crafted notes).",
